@@ -30,14 +30,14 @@ def _mk(v, symbolic, ctx):
     if not symbolic:
         return SymDec(c, x)
     n = ctx.fresh("st")
-    ctx.add(n == c)
+    ctx.add(n == c.k)
     return SymDec(n, x)
 
 
 def _val(s, ctx):
     if isinstance(s, SymDec):
-        if isinstance(s.c, int) and isinstance(s.d, int):
-            return Fraction(s.c) * Fraction(10) ** s.x / s.d
+        if s.is_concrete():
+            return Fraction(s.c.k) * Fraction(10) ** s.x / (1 if isinstance(s.d, int) else s.d.k)
         assert ctx._check() == "sat"
         return s.value_in(ctx.solver.model())
     return Fraction(s)
